@@ -1,5 +1,5 @@
 """C03 update returns the density ratio, keeps unconstrained choices, is invertible (DESIGN §4-C03)."""
-from . import gfi
+from . import gfi, c05
 
 EXPLANATION = ("ALG/ROLE/DEP rules over every update path plus the telescoping identity weight + S(new) − S(old) ≡ 0 "
                "(with the induction hypothesis on callees) decided by case splitting on where-conditions.")
@@ -15,5 +15,5 @@ def combs(ctx):
     gfi.cond_discard_depends_on_old_check(ctx, "update")
 
 
-RULES = [gfi.dist_update, combs, gfi.merge_polarity]
+RULES = [gfi.dist_update, combs, gfi.merge_polarity, c05.trace_update_reuses_args]
 FLOOR = 8
